@@ -1,11 +1,27 @@
 #!/bin/bash
-# For each fix: commit, undo it alone on top of HEAD in a lane and run the check(s) of its property.
+# tools/revertfixes.sh: for each fix: commit of /repo, undo it alone on top of HEAD in a lane (tools/mklane.sh)
+# and run the quick check(s) of its property; results in /var/tmp/reverts.log (exit status 1 = reported again).
 export GOFLAGS=-mod=mod GOPROXY=off
 LOG=/var/tmp/reverts.log; : > $LOG
+# the list "<commit>|<properties>|<subject>": fix: commits of /repo with the properties known_findings.json records for them
+python3 - <<'PY' > /var/tmp/fixes.txt
+import json,subprocess
+k=json.load(open('/verif/known_findings.json'))
+by={}
+for f in k['findings']:
+    if f['status']=='fixed': by.setdefault(f['commit'],set()).add(f['property'])
+for l in subprocess.run(['git','-C','/repo','log','--format=%h %s'],capture_output=True,text=True).stdout.strip().split('\n'):
+    h,subj=l.split(' ',1)
+    if not subj.startswith('fix:'): continue
+    props=set()
+    for c,p in by.items():
+        if h.startswith(c) or c.startswith(h): props|=p
+    print(f"{h}|{' '.join(sorted(props))}|{subj}")
+PY
 lane() {
-  i=$1; L=/var/tmp/lane-r$i; /var/tmp/mklane.sh r$i >/dev/null
+  i=$1; L=/var/tmp/lane-r$i; /verif/tools/mklane.sh r$i >/dev/null
   R=$L/repo; V=$L/verif
-  awk "NR % 3 == $i" /var/tmp/fixes.txt  # lines "<commit>|<properties>|<subject>", from known_findings.json and git log | while IFS='|' read h props subj; do
+  awk "NR % 3 == $i" /var/tmp/fixes.txt | while IFS='|' read h props subj; do
     cd $R; git checkout -q -- .; git clean -fdq
     if ! git show $h | git apply -R --3way >/dev/null 2>&1; then
       if [ -n "$(git status --short | grep '^UU')" ]; then echo "$h CONFLICT (later fixes changed the same lines) :: $subj" >> $LOG; git reset -q --hard; continue; fi
@@ -22,5 +38,6 @@ lane() {
     git checkout -q -- .; git clean -fdq
   done
   [ -c /dev/full ] || { rm -f /dev/full; mknod -m 666 /dev/full c 1 7; }
+  cd /; git -C /repo worktree remove --force $R; rm -rf $L
 }
 for i in 0 1 2; do lane $i & done; wait; echo DONE >> $LOG
